@@ -141,6 +141,11 @@ func genC10(g *Gen) {
 		func(f int) Step { return Step{Op: "Copy", Recv: f, Dst: toBS(""), Src: toBS("A")} },
 		func(f int) Step { return Step{Op: "Copy", Recv: f, Dst: toBS("'z'"), Src: toBS("A")} },
 		func(f int) Step { return Step{Op: "Distinct", Recv: f, Cols: bsList([]string{"nosuch"})} },
+		func(f int) Step { return Step{Op: "Rolling", Recv: f, Dst: toBS("Z"), Src: toBS("A"), A: -1} },
+		func(f int) Step { return Step{Op: "Rolling", Recv: f, Dst: toBS("Z"), Src: toBS("A"), Fl: "middle"} },
+		func(f int) Step { return Step{Op: "Rolling", Recv: f, Dst: toBS("Z"), Src: toBS("A"), A: 3, B: 1} },
+		func(f int) Step { return Step{Op: "Rolling", Recv: f, Dst: toBS("Z"), Src: toBS("nosuch")} },
+		func(f int) Step { return Step{Op: "Rolling", Recv: f, Dst: toBS("$z"), Src: toBS("A"), A: 2} },
 		func(f int) Step { return Step{Op: "WithRowNums", Recv: f, Dst: toBS("")} },
 		func(f int) Step { return Step{Op: "Filter", Recv: f, Clause: &Clause{K: "and"}} },
 		func(f int) Step { return Step{Op: "Filter", Recv: f, Clause: &Clause{K: "or"}} },
